@@ -166,6 +166,8 @@ def build(cfg, float_mode=False):
         assert kind == 'generic_implicit'
         d['problem_class'] = _finexact() if float_mode else InexactLin
         d['convergence_controllers'] = {NewtonInexactness: {'ratio': 0.5, 'max_tol': 0.25}}
+    if cfg.get('extra_cc'):  # (further convergence controllers of the description: {class: parameters}, given in-process)
+        d.setdefault('convergence_controllers', {}).update(cfg['extra_cc'])
     if cfg.get('e_tol') is not None:
         d['level_params']['e_tol'] = cfg['e_tol']  # stopping by increment: loads EstimateEmbeddedError, which registers extra level status variables
     if NL > 1:
